@@ -226,6 +226,17 @@ func c15Check(c c15Case) error {
 			}
 			s := sers[st.Ser%len(sers)]
 			s.CompressMode(simdjson.CompressMode(st.Mode % 4))
+			if st.Edit%3 == 0 {
+				// first a call that fails late (damaged header of the last block) on the same Serializer: the
+				// following good call must not be disturbed by anything the failed one left running
+				bad := append([]byte(nil), lastBlob...)
+				if f, _, err := walkFrame(bad); err == nil && f.vals.present && len(f.vals.data) > 0 {
+					bad[len(bad)-len(f.vals.data)-1] = 0x7f // unknown block type of the values block
+					if _, err := s.Deserialize(bad, nil); err == nil {
+						return fmt.Errorf("%s: Deserialize accepted a blob with an unknown block type", where)
+					}
+				}
+			}
 			var dst *simdjson.ParsedJson
 			if slot >= 0 {
 				dst = pool[slot]
@@ -294,13 +305,18 @@ func genReuseInput(t *rapid.T) ([]byte, string) {
 	default:
 		n = rapid.IntRange(12000, 30000).Draw(t, "n") // > 16 index buffers
 	}
-	kind := rapid.IntRange(0, 2).Draw(t, "elem")
+	kind := rapid.IntRange(0, 3).Draw(t, "elem")
+	if kind == 3 && size == 1 {
+		n = rapid.IntRange(1500, 4000).Draw(t, "ndense") // still below 8 KiB, but several index buffers of structurals
+	}
 	b.WriteByte('[')
 	for i := 0; i < n; i++ {
 		if i > 0 {
 			b.WriteByte(',')
 		}
 		switch kind {
+		case 3:
+			b.WriteByte(byte('0' + i%10))
 		case 0:
 			b.WriteString(strconv.Itoa(i))
 		case 1:
@@ -317,6 +333,9 @@ func genReuseInput(t *rapid.T) ([]byte, string) {
 		return text, "valid/" + class
 	case 2: // stage-2 error: missing comma / bad atom somewhere
 		pos := rapid.IntRange(0, len(text)-1).Draw(t, "errpos")
+		if rapid.Bool().Draw(t, "early") {
+			pos = rapid.IntRange(0, 20).Draw(t, "earlypos") % len(text) // an early error leaves most index buffers unconsumed
+		}
 		cp := append([]byte(nil), text...)
 		switch rapid.IntRange(0, 2).Draw(t, "s2kind") {
 		case 0:
